@@ -78,14 +78,21 @@ Theorem C03_sub_spec : forall d o, wf_rd d = true -> valid_dt o = true ->
 Proof. exact sub_spec. Qed.
 Print Assumptions C03_sub_spec.
 
-(* yearday / nlyearday through the ydayidx table regenerated from /repo (date operands).
-   Guard n <= 365: yearday = 366 is refuted below (finding F-C03-yearday366). *)
-Theorem C03_yearday_spec : forall n y m0 d0, 1 <= n <= 365 -> valid_ymd y m0 d0 = true ->
+(* yearday / nlyearday through the ydayidx table regenerated from /repo.  yearday = n selects the
+   n-th day of the operand's year for EVERY day of that year (366 in leap years: fixed in /repo by
+   f29aa05, formerly finding F-C03-yearday366); nlyearday for n = 1..365. *)
+Theorem C03_yearday_spec_full : forall n y m0 d0, 1 <= n <= year_len y -> valid_ymd y m0 d0 = true ->
   exists d yy mm dd,
     mk (kw_yearday n) = Ok d /\ spec_yearday_date y n = Some (yy, mm, dd) /\
     add_dt d (PD y m0 d0) = Ok (PD yy mm dd).
-Proof. exact yearday_spec. Qed.
-Print Assumptions C03_yearday_spec.
+Proof. exact yearday_spec_full. Qed.
+Print Assumptions C03_yearday_spec_full.
+
+Theorem C03_yearday_366_leap : forall y m0 d0, is_leap y = true -> valid_ymd y m0 d0 = true ->
+  exists d, mk (kw_yearday 366) = Ok d /\ spec_yearday_date y 366 = Some (y, 12, 31) /\
+            add_dt d (PD y m0 d0) = Ok (PD y 12 31).
+Proof. exact yearday_366_leap. Qed.
+Print Assumptions C03_yearday_366_leap.
 
 Theorem C03_nlyearday_spec : forall n y m0 d0, 1 <= n <= 365 -> valid_ymd y m0 d0 = true ->
   exists d mm dd,
@@ -94,11 +101,6 @@ Theorem C03_nlyearday_spec : forall n y m0 d0, 1 <= n <= 365 -> valid_ymd y m0 d
 Proof. exact nlyearday_spec. Qed.
 Print Assumptions C03_nlyearday_spec.
 
-Theorem C03_yearday_366_leap_refuted :
-  exists y d, is_leap y = true /\ valid_ymd y 1 1 = true /\ mk (kw_yearday 366) = Ok d /\
-    add_dt d (PD y 1 1) = Ok (PD y 12 30) /\ spec_yearday_date y 366 = Some (y, 12, 31).
-Proof. exact yearday_366_leap_refuted. Qed.
-Print Assumptions C03_yearday_366_leap_refuted.
 
 (* the guard of C03_add_dt_spec expressed on the constructor's keyword arguments *)
 Theorem C03_mk_wf : forall k d, mk k = Ok d -> kw_guard k = true -> wf_rd d = true.
@@ -110,13 +112,13 @@ Theorem C03_yearday_too_large : forall n, 366 < n ->
 Proof. exact yearday_too_large. Qed.
 Print Assumptions C03_yearday_too_large.
 
-Theorem C03_yearday_spec_datetime : forall n y m0 d0 hh mi ss us,
-  1 <= n <= 365 -> valid_dt (PDT y m0 d0 hh mi ss us) = true ->
+Theorem C03_yearday_spec_datetime_full : forall n y m0 d0 hh mi ss us,
+  1 <= n <= year_len y -> valid_dt (PDT y m0 d0 hh mi ss us) = true ->
   exists d yy mm dd,
     mk (kw_yearday n) = Ok d /\ spec_yearday_date y n = Some (yy, mm, dd) /\
     add_dt d (PDT y m0 d0 hh mi ss us) = Ok (PDT yy mm dd hh mi ss us).
-Proof. exact yearday_spec_datetime. Qed.
-Print Assumptions C03_yearday_spec_datetime.
+Proof. exact yearday_spec_datetime_full. Qed.
+Print Assumptions C03_yearday_spec_datetime_full.
 
 (* the [assert 1 <= abs(self.months) <= 12] in __add__ is unreachable for normalised deltas: only
    ValueError / OverflowError can come out, for every operand *)
